@@ -10,6 +10,8 @@
 (*   "over"   a = depth0        after the first step, trips when depth <= depth0 *)
 (*   "out"    a = depth0        after the first step, trips when depth <  depth0 *)
 (*   "pcne"   a = addr          run_while(|s| s.pc != addr)                      *)
+(*   "bpat"   a = n*65536+addr  never trips; inserts a PC breakpoint at addr      *)
+(*                              once icount - i0 >= n (b = i0)                    *)
 (* envs[i] is the environment of the i-th step of the run; envs[i].clr says     *)
 (* that another thread cleared the MCR while that step was being polled.        *)
 EXTENDS Machine
@@ -30,12 +32,18 @@ TripHolds(tw, st, first) ==       \* TRUE = keep running
     [] tw.k = "over"  -> first \/ tw.a < st.fno
     [] tw.k = "out"   -> first \/ tw.a <= st.fno
     [] tw.k = "pcne"  -> st.pc # tw.a
+    [] tw.k = "bpat"  -> TRUE
 
 \* [st, out, n]: final state, "ok" or an error kind, number of steps taken
 RECURSIVE RunLoop(_, _, _, _)
-RunLoop(st, tw, envs, i) ==
-  IF ~st.mcr THEN [st |-> [st EXCEPT !.pause = "MCROff"], out |-> "ok", n |-> i - 1]
-  ELSE IF ~TripHolds(tw, st, i = 1) THEN [st |-> [st EXCEPT !.pause = "Tripwire"], out |-> "ok", n |-> i - 1]
+RunLoop(st0, tw, envs, i) ==
+  IF ~st0.mcr THEN [st |-> [st0 EXCEPT !.pause = "MCROff"], out |-> "ok", n |-> i - 1]
+  ELSE
+  \* "bpat": the tripwire is handed the simulator and may edit it - here it inserts a PC breakpoint once
+  \* a \div 65536 instructions have run; the breakpoint set is read after every instruction, not once per call
+  LET st == IF tw.k = "bpat" /\ (st0.icount - tw.b) >= (tw.a \div 65536)
+            THEN [st0 EXCEPT !.bps = @ \cup {[k |-> "pc", a |-> tw.a % 65536, c |-> [k |-> "never", v |-> 0]]}] ELSE st0 IN
+  IF ~TripHolds(tw, st, i = 1) THEN [st |-> [st EXCEPT !.pause = "Tripwire"], out |-> "ok", n |-> i - 1]
   ELSE LET env == IF i <= Len(envs) THEN envs[i]        \* beyond the recorded polls: stop (reported as "nsteps")
                   ELSE [lockK |-> FALSE, lockD |-> FALSE, clr |-> TRUE,
                         ints |-> [j \in 1..8 |-> [k |-> 0, vect |-> 0, prio |-> 0]], draws |-> [j \in 1..8 |-> 1]]
@@ -59,4 +67,5 @@ RunCall(st, kind, arg, envs) ==
     [] kind = "out"       -> IF st.fno = 0 THEN [st |-> st, out |-> "ok", n |-> 0]
                              ELSE RunWhile(st, [k |-> "out", a |-> st.fno, b |-> 0], envs)
     [] kind = "pcne"      -> RunWhile(st, [k |-> "pcne", a |-> arg, b |-> 0], envs)
+    [] kind = "bpat"      -> RunWhile(st, [k |-> "bpat", a |-> arg, b |-> st.icount], envs)
 =============================================================================
